@@ -545,6 +545,17 @@ R.add('L8.8', l88, lambda tier: [dict(nbits=w, n=(3 if tier == 'quick' else 4)) 
               'contains() knows every number received inside the window'],
       bounds='widths 8 / 32 / 256; 3 (thorough 4) insertions; 17 representative offsets x 4 bases (finite domain, enumerated)')
 
+# ------------------------------------------------------------------ L8.9 sequence arithmetic outside SeqNum: retransmitted fragments
+# code that recomputes a sequence number (instead of storing it) must use the ring's arithmetic: same harness as C06 L6.4,
+# message counter anywhere on the ring
+from . import c06 as _c06  # noqa: E402
+
+R.add('L8.9', _c06.l64, [dict(maxfrag=3)], replay=_c06.replay_l64,
+      desc='a fragmented send started with the message counter anywhere on the ring (also right before the wrap): a timed-out '
+           'fragment is re-queued under exactly the message sequence number it was first sent under',
+      expect=['re-sent fragment keeps the message sequence number it was first sent under (ring arithmetic, also across the wrap)'],
+      bounds='<= 3 fragments; message counter before the send any value 1..65535')
+
 for _lid in ['L8.1', 'L8.1s', 'L8.1c', 'L8.2', 'L8.3t', 'L8.8']:
     if _lid in R.lemmas:
         R.lemmas[_lid].api = True
